@@ -76,10 +76,10 @@ class Model:
         self.key[slot] = kid
         return kid
 
-    def add_eph(self, slot, kslot, vspec, opi):
+    def add_eph(self, slot, kslot, vspec, opi, imm=False):
         """vspec: ["fresh", written] | ["own-key"] | ["key", j] | ["eph", f] -- resolved against the CURRENT slots, so a shrunk history
         (where the operation that filled a slot is gone and the slot holds #f) is judged as what it now is"""
-        key = self.key.get(kslot)
+        key = self.key.get(kslot) if kslot is not None else None
         refs, erefs, written = [], [], None
         if vspec[0] == "fresh":
             written = vspec[1]
@@ -92,7 +92,7 @@ class Model:
             e2 = self.eph.get(vspec[1])
             erefs = [e2] if e2 is not None else []
         eid = self.new_id()
-        self.eobj[eid] = {"key": key, "refs": refs, "erefs": erefs, "written": written, "created": opi, "kslot": kslot}
+        self.eobj[eid] = {"key": key, "refs": refs, "erefs": erefs, "written": written, "created": opi, "kslot": kslot, "imm": imm}
         self.eph[slot] = eid
         return eid
 
@@ -151,6 +151,15 @@ def gen_history(rng):
             i = rng.choice(chained) if chained and rng.chance(2, 3) else rng.choice(sorted(m.key))
             del m.key[i]
             ops.append({"src": "(vector-set! K %d #f) #t" % i, "kind": "unroot", "slot": i})
+        elif op == "mk-eph" and (not m.key or rng.chance(1, 8)):
+            # an ephemeron whose key is not a heap object (fixnum, boolean, character, empty list): the key can never die, so the
+            # value must be kept for as long as the ephemeron is -- also when no ephemeron with a heap key has ever been made
+            e = rng.below(NE)
+            tag = "v%d" % rng.below(100000)
+            imm = rng.choice(["0", "42", "-7", "#t", "#\\a", "'()"])
+            m.add_eph(e, None, ["fresh", '(%s "s%s")' % (tag, tag)], opi, imm=True)
+            ops.append({"src": "(vector-set! E %d (make-ephemeron %s (list '%s (string-append \"s\" \"%s\")))) #t" % (e, imm, tag, tag), "kind": "mk-eph",
+                        "slot": e, "kslot": None, "vspec": ["fresh", '(%s "s%s")' % (tag, tag)], "imm": True})
         elif op == "mk-eph":
             if not m.key:
                 continue
@@ -326,7 +335,7 @@ def judge(case, res):
         elif kind == "unroot":
             m.key.pop(o["slot"], None)
         elif kind == "mk-eph":
-            m.add_eph(o["slot"], o["kslot"], o["vspec"], opi)
+            m.add_eph(o["slot"], o["kslot"], o["vspec"], opi, imm=bool(o.get("imm")))
         elif kind == "drop-eph":
             m.eph.pop(o["slot"], None)
         elif kind == "gc":
@@ -338,8 +347,17 @@ def judge(case, res):
         elif kind == "query":
             eid = m.eph.get(o["slot"])
             e = m.eobj.get(eid) if eid is not None else None
+            if e is not None and e["key"] is None and e.get("imm"):
+                # made with a true immediate key: never broken, value retained
+                checks += 1
+                r = s["res"]
+                want = '"%s"' % e["written"].replace("\\", "\\\\").replace('"', '\\"')
+                parts = r[1:-1].split(" ", 2)
+                if r.startswith("(#t") or len(parts) < 3 or parts[2] != want:
+                    V.append(Verdict("eph:value-not-retained", "op %d: ephemeron with an immediate key: query says %s, value was created as %s" % (opi, r[:120], want), {"how": "immediate-key"}))
+                e = None
             if e is not None and e["key"] is None:
-                e = None    # made with an immediate key (#f): nothing to say about "broken" for it; it still counts for reachability
+                e = None    # key slot was empty (#f) when it was made: nothing to say about "broken"; it still counts for reachability
             if e is not None:
                 checks += 1
                 m.update(opi)
